@@ -132,22 +132,35 @@ Check ==
                  /\ UNCHANGED <<i, pofs, pref, fulls, todo, extq, extdone, yielded, vis, err, cur, visited, pass, cnt>>
 
 (* one entry read and recorded, or the end of the declared entries *)
-Scan ==
-  /\ pc = "scan"
-  /\ IF i > cnt
-       THEN IF M.stream /\ cnt < N THEN Fail("checksum")       \* the 20 bytes that follow are not the trailer
-            ELSE IF M.stream /\ case.tr = 0 THEN Fail("checksum")
-            ELSE /\ pc' = IF M.resolve = "none" THEN "done" ELSE "walkfull"
-                 /\ UNCHANGED <<i, pofs, pref, fulls, todo, extq, extdone, yielded, vis, err, cur, visited, pass, cnt>>
-       ELSE IF i > N THEN Fail("garbage")                        \* the trailer is parsed as an entry
-       ELSE IF Malformed(i) THEN Fail(IF case.szat = i THEN "zlib" ELSE "ofs0")
-       ELSE IF M.nodelta /\ Kind(i) # 0 THEN Fail("assert-delta")
-       ELSE /\ i' = i + 1
-            /\ fulls' = IF Kind(i) = 0 THEN Append(fulls, i) ELSE fulls
-            /\ pofs' = IF Kind(i) = 1 THEN [pofs EXCEPT ![Arg(i)] = Append(@, i)] ELSE pofs
-            /\ pref' = IF Kind(i) = 2 THEN [pref EXCEPT ![Arg(i)] = Append(@, i)] ELSE pref
-            /\ yielded' = IF M.resolve = "none" THEN Append(yielded, <<i, 0>>) ELSE yielded
-            /\ UNCHANGED <<pc, todo, extq, extdone, vis, err, cur, visited, pass, cnt>>
+Streaming == M.stream /\ pass = 1      \* the validation pass reads the installed file, not a stream
+
+(* the end of the declared entries.  A stream reader keeps the last 20 bytes it took off the wire as the
+   trailer and hashes the rest: if fewer entries are declared than the stream holds, the check fails --
+   unless read-ahead happened to swallow the whole rest of the stream, in which case the genuine trailer
+   matches everything before it and the undeclared entries are silently dropped (both outcomes are
+   possible, depending on how the transport chunks the data) *)
+ScanEnd ==
+  /\ pc = "scan" /\ i > cnt
+  /\ \/ /\ Streaming /\ (cnt < N \/ case.tr = 0)
+        /\ Fail("checksum")
+     \/ /\ ~Streaming \/ case.tr = 1
+        /\ pc' = (IF M.resolve = "none" THEN "done" ELSE "walkfull")
+        /\ UNCHANGED <<i, pofs, pref, fulls, todo, extq, extdone, yielded, vis, err, cur, visited, pass, cnt>>
+
+(* one entry read and recorded *)
+ScanEntry ==
+  /\ pc = "scan" /\ i <= cnt
+  /\ IF i > N THEN Fail("garbage")                             \* the trailer is parsed as an entry
+     ELSE IF Malformed(i) THEN Fail(IF case.szat = i THEN "zlib" ELSE "ofs0")
+     ELSE IF M.nodelta /\ Kind(i) # 0 THEN Fail("assert-delta")
+     ELSE /\ i' = i + 1
+          /\ fulls' = IF Kind(i) = 0 THEN Append(fulls, i) ELSE fulls
+          /\ pofs' = IF Kind(i) = 1 THEN [pofs EXCEPT ![Arg(i)] = Append(@, i)] ELSE pofs
+          /\ pref' = IF Kind(i) = 2 THEN [pref EXCEPT ![Arg(i)] = Append(@, i)] ELSE pref
+          /\ yielded' = IF M.resolve = "none" THEN Append(yielded, <<i, 0>>) ELSE yielded
+          /\ UNCHANGED <<pc, todo, extq, extdone, vis, err, cur, visited, pass, cnt>>
+
+Scan == ScanEnd \/ ScanEntry
 
 (* _follow_chain: pop, resolve, yield, push whatever was waiting for this offset / this name *)
 ChainStep ==
@@ -187,7 +200,7 @@ Final ==
   /\ pc = "final"
   /\ IF \E k \in DOMAIN pref : pref[k] # <<>> THEN Fail("unresolved")
      ELSE IF \E k \in DOMAIN pofs : pofs[k] # <<>> THEN Fail("assert-pending-ofs")
-     ELSE IF pass = 1 /\ case.mode = 2 /\ ExtUsed /\ cnt < N
+     ELSE IF pass = 1 /\ case.mode \in {1, 2} /\ ExtUsed /\ cnt < N
        THEN \* extend_pack appended the base after the undeclared rest of the file and raised the count by one:
             \* the validation of the installed pack reads that rest as the next entry
             /\ pass' = 2 /\ cnt' = cnt + 1 /\ pc' = "scan" /\ i' = 1
@@ -259,7 +272,7 @@ ErrorOrAll ==
            /\ \A j \in 1..Count : Resolvable(j, N + 1, M.thin)
            /\ vis = 1..Count
     ELSE IF M.resolve = "none"
-      THEN Len(yielded) = Count /\ Count = N /\ \A j \in 1..N : ~Malformed(j)
+      THEN Len(yielded) = Count /\ Count <= N /\ \A j \in 1..Count : ~Malformed(j)
     ELSE Resolvable(case.start, N + 1, FALSE)
 
 (* a failed ingestion leaves nothing of the pack visible *)
